@@ -32,7 +32,27 @@ def ks_trace(scn, rec):
     rk.freeze()
     creates = [p["k"] for nm, p in log if nm == "create_arcs"]
     pdfs = [p["k"] for nm, p in log if nm == "calculate_pdf"]
+    # "the final model is built with that k": its density model (constant, range, every sample's density) is that of a graph built
+    # from scratch on the same samples with k = best_k (a fresh KNNSubgraph, create_arcs(best_k), calculate_pdf(best_k)) - nothing an
+    # earlier candidate left behind (a larger density bound, plateau arcs) is part of it.  1 same, 0 differs, 2 not comparable
+    same = 2
+    try:
+        import numpy as np
+        from opfython.subgraphs.knn import KNNSubgraph
+        m = rec["model"]
+        nodes = m.subgraph.nodes
+        X = np.array([np.asarray(nd.features) for nd in nodes])
+        fresh = KNNSubgraph(X, np.array([int(nd.label) for nd in nodes]), np.array([int(nd.idx) for nd in nodes]))
+        args = (m.distance_fn, m.pre_computed_distance, m.pre_distances)
+        fresh.create_arcs(int(fin["best_k"]), *args)
+        fresh.calculate_pdf(int(fin["best_k"]), *args)
+        a = (float(fresh.constant), float(fresh.min_density), float(fresh.max_density), [float(nd.density) for nd in fresh.nodes])
+        b = (fin["constant"], fin["mn"], fin["mx"], [float(v) for v in fin["dens"]])
+        same = 1 if a == b else 0
+    except Exception:
+        same = 2
     return {
+        "final_pdf_same": same,
         "mode": scn["kind"],
         "lo": 1 if scn["kind"] == "knn" else scn["min_k"],
         "hi": scn["max_k"],
